@@ -629,8 +629,18 @@ def gen_c18(r, knobs=None):
             if t < 0.45:
                 insts = b.insts(cid)
                 ups = [name] + sorted(_upstream_names(insts[name]))
-                b.op(op='armrun', slug=insts[r.choice(ups)].slug, kind=r.choice(RUN_FAULTS), at=r.choice([0, 1]))
+                victim = r.choice(ups)
+                if r.random() < 0.5:
+                    # the failing run is a forced recomputation over an existing result
+                    b.req(cid, name)
+                    b.op(op='tforce', cid=cid, task=victim, name=victim, delete=False)
+                    if victim != name:
+                        b.op(op='tforce', cid=cid, task=name, name=name, delete=False)
+                b.op(op='armrun', slug=insts[victim].slug, kind=r.choice(RUN_FAULTS), at=r.choice([0, 1]))
                 b.req(cid, name)
+                if r.random() < 0.5:
+                    # between the failed attempt and the retry the records still belong to the run that produced the stored result
+                    b.op(op='insp', cid=cid, kind='run_info')
                 if r.random() < 0.5:
                     # retry through a new chain of the same process (same logger names)
                     cid = b.build(b.chain_info[cid][0], b.render(rich=False))
